@@ -466,6 +466,14 @@ func runC15(f *hx.Flags) {
 		return
 	}
 	r.RunCorpus()
+	// concurrent variant under the race detector (supporting evidence for derivations_write_only_fresh)
+	// (run first: the runner keeps a bounded number of disagreements)
+	nr := 300
+	if f.Tier == "thorough" {
+		nr = 5000
+	}
+	r.Add(hx.Case{Domain: true, Nontrivial: true, Tags: []string{"race-run"}, Key: "C15:race",
+		Lines: []string{"case ge race", fmt.Sprintf("ge race %d %d", f.Seed, nr)}})
 	g := &c15gen{rng: r.Rng, impl: impl, frames: map[string][]string{}}
 	n := r.N(20000)
 	if f.Tier == "thorough" {
@@ -491,12 +499,5 @@ func runC15(f *hx.Flags) {
 		// arbitrary text as a frame name: nothing the runtime produces; drift only
 		r.Add(hx.Case{Domain: false, Tags: []string{"metric-junk"}, Lines: []string{"case ge junk", "ge metric " + enc(randText(r.Rng, 6))}})
 	}
-	// concurrent variant under the race detector (supporting evidence for derivations_write_only_fresh)
-	nr := 300
-	if f.Tier == "thorough" {
-		nr = 5000
-	}
-	r.Add(hx.Case{Domain: true, Nontrivial: true, Tags: []string{"race-run"}, Key: "C15:race",
-		Lines: []string{"case ge race", fmt.Sprintf("ge race %d %d", f.Seed, nr)}})
 	r.Finish()
 }
